@@ -87,6 +87,45 @@ def specCreate (db : SDB) (name : Bytes) (cols : List ColDef) : Option SDB :=
   else if cols.any (fun c => match c.ty with | .varchar n => n > 2147483647 | _ => false) then none
   else some (db ++ [⟨name, cols.map colField, []⟩])
 
+/-- States a refused multi-row statement would leave behind if it had applied a proper prefix of
+its row operations before failing (what C14 forbids): for INSERT the rows before the first
+invalid one, for UPDATE the selected rows before the first one that cannot be rewritten. -/
+def prefixStates (db : SDB) : Stmt → List (Bytes × List (List Val))
+  | .insert t cols rows =>
+    match findTable db t with
+    | none => []
+    | some tb =>
+      let vals := rows.map fun r => rowOf tb cols (r.map litVal)
+      let good := (vals.takeWhile (·.isSome)).filterMap id
+      if good.length == vals.length then [] else
+      (List.range good.length).map fun j => (t, tb.rows.map (·.vals) ++ good.take (j + 1))
+  | .update t sets w =>
+    match findTable db t with
+    | none => []
+    | some tb =>
+      match selects tb w with
+      | none => []
+      | some sel =>
+        let assign (vals : List Val) : Option (List Val) :=
+          let m : Vals := (sets.map fun p => (nameStr p.1, match p.2 with | .lit l => litVal l | .col _ => Val.null)).reverse ++
+            (tb.cols.map (·.name)).zip vals
+          match encodeTuple tb.cols m with
+          | .error _ => none
+          | .ok bs => if bs.length > Generated.c_maxValueSize then none else some (tb.cols.map fun fd => get m fd.name)
+        -- number of selected rows that can be rewritten before the first failure
+        let selRows := (tb.rows.zip sel).filter (·.2) |>.map (·.1.vals)
+        let okCount := (selRows.takeWhile fun v => (assign v).isSome).length
+        (List.range okCount).map fun j =>
+          -- the first j+1 selected rows rewritten
+          let rec go (rows : List (SRow × Bool)) (left : Nat) : List (List Val) :=
+            match rows with
+            | [] => []
+            | (r, s) :: rest =>
+              if s && left > 0 then ((assign r.vals).getD r.vals) :: go rest (left - 1)
+              else r.vals :: go rest left
+          (t, go (tb.rows.zip sel) (j + 1))
+  | _ => []
+
 /-- effect of a statement; `none` = the statement must be refused and change nothing -/
 def specStmt (db : SDB) : Stmt → Option SDB
   | .createTable n cols => specCreate db n cols
